@@ -14,7 +14,7 @@ DECIDES = ('a knot vector of wrong length or decreasing order cannot reach stora
            '(strict >, all pairs covered), and returns True only after both tests (KC1); knotvector.generate returns degree + n + 1 knots on both '
            '`clamped` branches with end multiplicity degree + 1 when clamped (LY4); knotvector.normalize is the affine map (k - first)/(last - first) '
            '(AL8); both span searches implement half-open spans: comparison operators on the lower/upper knot are exactly (<, >=) resp. (<=) (HO1); '
-           'find_multiplicity compares absolute differences (TOL1); per-direction helper calls in helpers are direction-uniform (AX1); [ORDER TYPES, bounded box, exact per type] both span searches return exactly the half-open interval containing the parameter (the last non-empty one at the domain end) and agree with each other, find_multiplicity returns the number of equal knots, and knotvector.check accepts exactly the non-decreasing vectors of the right length - decided by interpreting the comparison-only skeleton of these functions over every knot order type of the box (OT1-OT3); the single-function routines return 1.0 in the boundary case, the literal 0.0 outside the half-open support, and never an untouched initial cell for derivative orders <= degree inside it, on every fork of their arithmetic zero tests (OT4); [SKEL, bounded] basis_function, basis_function_all and basis_function_ders are index-safe for degrees 1..7, every span and derivative orders 0..degree+2. the list variant find_spans returns for every parameter of a sorted list the span of the single-parameter search (OT1); a delegation wrapper that declares **kwargs forwards them, so the compatibility names in utilities honour clamped=False (KW1). knotvector.normalize returns a new list on every path (PU6).')
+           'find_multiplicity compares absolute differences (TOL1); per-direction helper calls in helpers are direction-uniform (AX1); [ORDER TYPES, bounded box, exact per type] both span searches return exactly the half-open interval containing the parameter (the last non-empty one at the domain end) and agree with each other, find_multiplicity returns the number of equal knots, and knotvector.check accepts exactly the non-decreasing vectors of the right length - decided by interpreting the comparison-only skeleton of these functions over every knot order type of the box (OT1-OT3); the single-function routines return 1.0 in the boundary case, the literal 0.0 outside the half-open support, and never an untouched initial cell for derivative orders <= degree inside it, on every fork of their arithmetic zero tests (OT4); [SKEL, bounded] basis_function, basis_function_all and basis_function_ders are index-safe for degrees 1..7, every span and derivative orders 0..degree+2. the list variant find_spans returns for every parameter of a sorted list the span of the single-parameter search (OT1); a delegation wrapper that declares **kwargs forwards them, so the compatibility names in utilities honour clamped=False (KW1). knotvector.normalize returns a new list on every path (PU6). find_multiplicity lets the parameter meet the knots only inside abs(parameter - knot) compared with the tolerance (TOL2).')
 NOT_DECIDED = ('span search beyond the enumerated box and inside the tolerance windows, non-negativity, partition of unity, derivative sums, Cox-de Boor '
                'equality, order-preservation to rounding: all numerical.')
 TECHNIQUE = 'CFG dominance (guards), polynomial normal forms, comparison-operator lattice, symbolic length algebra'
@@ -40,8 +40,36 @@ def check(m, run):
     run.floor('LY4.generate-length', 2, 'clamped / unclamped')
     kw1(m, run)
     normalize_fresh(m, run)
+    tol2(m, run)
     run.floor('OT1.span-is-the-half-open-interval', 2, 'linear and binary span search over the order-type box (HO1 is the syntactic fast path and may be absent)')
     run.floor('TOL1.two-sided-tolerance', 2, 'find_multiplicity, binsearch end snap')
+
+
+def tol2(m, run):
+    """TOL2: find_multiplicity counts the knots that equal the parameter *within the tolerance*: the parameter meets the knots only inside
+    abs(parameter - knot) compared with the tolerance.  Locating the run of equal knots by an exact comparison or a bisection of the raw
+    values skips knots that differ from the parameter by round-off (a parameter computed as 1 - 2/3 against the knot 1/3)."""
+    fi = m.func('helpers.find_multiplicity')
+    knot = params_of(fi.node)[0]
+    bad = []
+    n = 0
+    for x in walk_no_nested(fi.node):
+        if isinstance(x, ast.Name) and x.id == knot and isinstance(x.ctx, ast.Load):
+            n += 1
+            p_ = getattr(x, '_sa_parent', None)
+            ok = isinstance(p_, ast.BinOp) and isinstance(p_.op, ast.Sub)
+            if ok:
+                g = getattr(p_, '_sa_parent', None)
+                ok = isinstance(g, ast.Call) and norm(g.func) == 'abs'
+            if not ok:
+                bad.append(x)
+    if n == 0:
+        raise AnalysisError('find_multiplicity: the parameter is never used')
+    where = bad[0] if bad else fi.node
+    ctx = getattr(bad[0], '_sa_parent', None) if bad else None
+    run.ob('TOL2.parameter-meets-knots-through-the-tolerance', fi.key, not bad, 'every use of the parameter is abs(parameter - knot)' if not bad else
+           '`%s` uses the raw parameter outside the tolerance comparison: knots equal to the parameter only up to round-off are not counted'
+           % norm(ctx)[:60], site(fi, where))
 
 
 def normalize_fresh(m, run):
